@@ -187,7 +187,24 @@ func (f *FuncContract) OwnedMode(name string) string {
 			return "assigns"
 		}
 	}
+	if len(f.OwnedFields(name)) > 0 {
+		return "fields"
+	}
 	return ""
+}
+
+// OwnedFields lists the fields f of `assigns name.f` entries (fields of the root node of an owned
+// parameter that the function may modify; everything else below the parameter is unchanged).
+func (f *FuncContract) OwnedFields(name string) []string {
+	var out []string
+	for _, a := range f.Assigns {
+		if s, ok := a.(*Selector); ok {
+			if id, ok := s.X.(*Ident); ok && id.Name == name {
+				out = append(out, s.Name)
+			}
+		}
+	}
+	return out
 }
 
 // Key is the name used to bind the contract to an ssa function: Name, (T).Name or (*T).Name.
